@@ -51,7 +51,7 @@ vars == <<m, main, bodies, open, plan, nops, ncalls, ls, gs, dw, nw, fault, fin,
 SizesFor(f, k) == IF Sim \/ f \in {"mix", "deep10"} \/ (f = "callsubr" /\ k = "l") \/ (f = "callgsubr" /\ k = "g")
                   THEN Sizes ELSE {CHOOSE z \in Sizes : \A q \in Sizes : z <= q}
 
-NoPlan == [op |-> "", n |-> 0, ar |-> 0, bad |-> FALSE]
+NoPlan == [op |-> "", n |-> 0, ar |-> 0, bad |-> FALSE, tot |-> 0]
 
 Init == /\ m = M0 /\ main = <<>> /\ bodies = <<>> /\ open = <<>> /\ plan = NoPlan
         /\ nops = 0 /\ ncalls = 0 /\ fault = "" /\ fin = FALSE
@@ -77,7 +77,8 @@ CallFeats == {"callsubr", "callgsubr", "deep10"}
 OpsNow ==
   IF feat = "mix" THEN (GenOps \cap ClearOps) \ Excluded
   ELSE (BaseOps \cup {feat}
-        \cup (IF feat \in MaskOps THEN {"hstem", "vstem"} ELSE {})) \cap GenOps \cap ClearOps
+        \cup (IF feat \in MaskOps THEN {"hstem", "vstem"} ELSE {})
+        \cup (IF feat = "endchar" THEN {"hstem", "hintmask"} ELSE {})) \cap GenOps \cap ClearOps
 ArithNow ==
   IF feat = "mix" THEN ArithOps \ Excluded
   ELSE IF feat \in {"put", "get"} THEN BaseArith \cup {"put", "get"}   \* storage is observable only through both
@@ -109,11 +110,14 @@ LegalFor(op, n) ==
                          /\ (n >= 2 => m.stage <= 1)
                          /\ (n >= 2 \/ m.hs # <<>> \/ m.vs # <<>>)
                          /\ (op = "cntrmask" => m.stage <= 1 \/ ~m.moved)
-    [] op = "endchar" -> n = 0 \/ n = w
+    [] op = "endchar" -> n \in {0, w, 4, 4 + w}
 
 \* at least the smallest legal count, also when it exceeds MaxArgs (flex needs 13)
+\* (the four-operand form of endchar: always in simulation, when enumerating only in the
+\* behaviours dedicated to endchar)
 Counts(op) ==
   LET C == {n \in 0..MaxArgs : LegalFor(op, n)}
+           \cup (IF op = "endchar" /\ (Sim \/ feat = "endchar") THEN {n \in 4..5 : LegalFor(op, n)} ELSE {})
       A == {n \in 0..MaxStack : LegalFor(op, n)} IN
   IF C # {} \/ A = {} THEN C ELSE {CHOOSE n \in A : \A k \in A : n <= k}
 \* simulation favours the boundary counts; model checking takes all
@@ -133,13 +137,15 @@ ChoosePlan ==
        /\ \E n \in SomeCounts(op) :
           \E ar \in Pick(IF ArithNow = {} \/ (~Sim /\ nops > 0) THEN {0}
                          ELSE IF feat \in ArithOps THEN 1..MaxArith ELSE 0..MaxArith) :
-            plan' = [op |-> op, n |-> n, ar |-> ar, bad |-> FALSE]
+            plan' = [op |-> op, n |-> n, ar |-> ar, bad |-> FALSE, tot |-> n]
   /\ UNCHANGED <<m, main, bodies, open, nops, ncalls, ls, gs, dw, nw, fault, fin, feat, glyphs, ng>>
 
 \* ---- operands: a literal ...
 \* Enumeration keeps the state space small: both boundary values only for the last six operands
 \* of the operator the behaviour is dedicated to; simulation always draws from Vals.
-ValsNow == IF Sim \/ (plan.n <= 6 /\ (plan.op = feat \/ feat \in {"base", "mix"})) THEN Vals
+\* (bchar and achar of the four-operand endchar are character codes)
+ValsNow == IF plan.op = "endchar" /\ plan.tot >= 4 /\ plan.n <= 2 THEN {65 * Unit, 194 * Unit}
+           ELSE IF Sim \/ (plan.n <= 6 /\ (plan.op = feat \/ feat \in {"base", "mix"})) THEN Vals
            ELSE {MaxOf(Vals)}
 PushLit ==
   /\ Running /\ plan.op # "" /\ plan.n > 0
@@ -181,6 +187,17 @@ FormsOf(A, B) ==
             <<W((a \div Unit) * (a \div Unit)), Op("sqrt")>>, <<W(0), Op("sqrt")>>}
     : a \in A, b \in B }
 FormsAll == FormsOf({MinOf(SVals)}, {MaxOf(SVals)})   \* a constant: TLC evaluates it once
+\* 16.16 arithmetic at the representation boundary: products and quotients that lie exactly halfway
+\* between two 16.16 numbers (k odd, in units of 2^-16), of both signs, and one unit either side;
+\* a tie amplified by further multiplications; exact quotients for comparison
+TieKs == {1, -1, 3, -32767}
+TieForms ==
+  IF Unit = 1 THEN {}
+  ELSE LET N(v) == Num(v)  W(k) == Num(k * Unit)  h == Unit \div 2 IN
+       UNION { { <<N(k), N(h), Op("mul")>>, <<N(k), N(-h), Op("mul")>>, <<N(k), N(h + 1), Op("mul")>>,
+                 <<N(k), N(h - 1), Op("mul")>>, <<N(h), N(k), Op("mul"), W(16384), Op("mul"), W(4), Op("mul")>>,
+                 <<N(k), W(2), Op("div")>>, <<N(k), W(-2), Op("div")>>, <<N(k), W(4), Op("div")>>,
+                 <<N(3 * k), W(3), Op("div")>>, <<N(k), N(h), Op("div")>> } : k \in TieKs }
 \* (the parameter keeps TLC from treating the random picks as a constant, too)
 Forms(dummy) == IF Sim THEN FormsOf(Pick(SVals), Pick(SVals)) ELSE FormsAll
 
@@ -194,12 +211,15 @@ StackForms ==
 
 PushArith ==
   /\ Running /\ plan.op # "" /\ plan.ar > 0
-  /\ \E f \in Pick({g \in Forms(Len(main)) \cup StackForms :
+  /\ \E f \in Pick({g \in Forms(Len(main)) \cup TieForms \cup StackForms :
                        \A i \in 1..Len(g) : g[i].op = "num" \/ g[i].op \in ArithNow}) :
        LET m2 == RunToks(m, f)
            d  == Len(m2.stack) - Len(m.stack) IN
        /\ Len(m.stack) + 6 <= MaxStack
        /\ m2.st = "run" /\ Bounded(m2)
+       \* only a path operator may take an inexact quotient, and not as its width operand
+       /\ m2.inex => (plan.op \in MoveOps \cup DrawOps
+                      /\ (m.wset \/ plan.tot = (IF plan.op = "rmoveto" THEN 2 ELSE 1)))
        /\ d \in {0, 1} /\ d <= plan.n
        /\ m' = m2 /\ Out(f)
        /\ plan' = [plan EXCEPT !.n = @ - d, !.ar = @ - 1]
